@@ -7,6 +7,7 @@ Part 1 - readers (work on the TEXT of the data files, share no code with the lib
     read_f0(path=None)            -> F0File     (entries in file order + duplicate report)
     f0_coefficients()             -> {symbol: (a[5], c, b[5])}   (cached)
     f0_entries()                  -> [dict(Z, symbol, a, c, b, line)]  in file order (cached)
+    cromer_mann_coefficients()    -> same dict as f0_coefficients() (the name C20 uses)
   Anomalies of the data (duplicated energies, energies out of order, duplicated symbols) are
   REPORTED in the returned object, never resolved silently.
 
@@ -226,6 +227,13 @@ def f0_coefficients():
     return dict((e["symbol"], (e["a"], e["c"], e["b"])) for e in ff.entries)
 
 
+def cromer_mann_coefficients():
+    """{symbol as written in f0_WaasKirf.dat: ((a1..a5), c, (b1..b5))} for every '#S' entry of the
+    file (211, including the valence states 'Cval' and 'Siva').  Raises MachineryError if the file
+    lists a symbol twice (nothing is resolved silently).  Name used by C20."""
+    return f0_coefficients()
+
+
 _F0SYM = re.compile(r"^([A-Z][a-z]?)(?:([0-9]+)([+-]))?$")
 
 
@@ -262,16 +270,27 @@ def _upper(xs, x):
     return lo
 
 
-def _lerp(x0, x1, y0, y1, x):
-    if math.isnan(y0) or math.isnan(y1):
-        return NAN, 0.0
-    t = (x - x0) / (x1 - x0)
-    return y0 + t * (y1 - y0), abs(y0) + abs(y1)
+XERR = 8 * 2.220446049250313e-16   # relative uncertainty of an energy: the keV value of a node depends on
+                                   # how eV is converted (1 ulp), a wavelength round trip costs 2-3 ulps
+TOL_REF = 1e-9                     # the relative tolerance the returned scales are meant for
+
+
+def _slope_allowance(xs, col, i, x):
+    """|d value| caused by moving x by XERR*x along the segment (i, i+1), expressed as a scale for
+    TOL_REF (conditioning: next to an absorption edge a value of 1e-15 sits 0.2 eV from one of 7)."""
+    if i < 0 or i + 1 >= len(xs) or xs[i + 1] <= xs[i]:
+        return 0.0
+    y0, y1 = col[i], col[i + 1]
+    if y0 != y0 or y1 != y1:
+        return 0.0
+    return XERR * x * abs(y1 - y0) / (xs[i + 1] - xs[i]) / TOL_REF
 
 
 def sf_candidates(table, E, fuzzy=False):
     """Acceptable (f1, f2) at energy E (keV): list of ((f1, f2), (scale1, scale2)), or None when
-    E lies in a zone where the table rows are out of order (not judged).
+    E lies in a zone where the table rows are out of order (not judged).  A scale is the sum of the
+    magnitudes of the terms of the interpolation plus the conditioning allowance above; compare with
+    |observed - value| <= 1e-9 * scale.
 
     Strict: NaN outside [first, last]; at a node the tabulated row (all rows of a duplicated
     energy); between nodes the straight line through the two neighbours (NaN if either is missing).
@@ -280,31 +299,27 @@ def sf_candidates(table, E, fuzzy=False):
     if in_zone(table, E):
         return None
     xs, n = table.energy, len(table.energy)
+    cols = (table.f1, table.f2)
     out = []
 
-    def add(v1, s1, v2, s2):
-        out.append(((v1, v2), (s1, s2)))
+    def node_scale(col, k):
+        if col[k] != col[k]:
+            return 0.0
+        return abs(col[k]) + max(_slope_allowance(xs, col, k - 1, xs[k]), _slope_allowance(xs, col, k, xs[k]))
 
     def row(k):
-        add(table.f1[k], abs(table.f1[k]) if table.f1[k] == table.f1[k] else 0.0,
-            table.f2[k], abs(table.f2[k]) if table.f2[k] == table.f2[k] else 0.0)
+        out.append(((cols[0][k], cols[1][k]), (node_scale(cols[0], k), node_scale(cols[1], k))))
 
     def limits(k):
-        # limit from the left at node k
-        if k == 0:
-            add(NAN, 0.0, NAN, 0.0)
-        else:
-            add(table.f1[k] if table.f1[k - 1] == table.f1[k - 1] else NAN, abs(table.f1[k]) if table.f1[k] == table.f1[k] else 0.0,
-                table.f2[k] if table.f2[k - 1] == table.f2[k - 1] else NAN, abs(table.f2[k]) if table.f2[k] == table.f2[k] else 0.0)
-        # limit from the right
-        if k == n - 1:
-            add(NAN, 0.0, NAN, 0.0)
-        else:
-            add(table.f1[k] if table.f1[k + 1] == table.f1[k + 1] else NAN, abs(table.f1[k]) if table.f1[k] == table.f1[k] else 0.0,
-                table.f2[k] if table.f2[k + 1] == table.f2[k + 1] else NAN, abs(table.f2[k]) if table.f2[k] == table.f2[k] else 0.0)
+        for nb in (k - 1, k + 1):           # limit from the left, from the right
+            if nb < 0 or nb >= n:
+                out.append(((NAN, NAN), (0.0, 0.0)))
+            else:
+                v = tuple(c[k] if c[nb] == c[nb] else NAN for c in cols)
+                out.append((v, (node_scale(cols[0], k), node_scale(cols[1], k))))
 
     if E < xs[0] or E > xs[-1]:
-        add(NAN, 0.0, NAN, 0.0)
+        out.append(((NAN, NAN), (0.0, 0.0)))
         i = 0 if E < xs[0] else n - 1
     else:
         i = _upper(xs, E)
@@ -314,9 +329,18 @@ def sf_candidates(table, E, fuzzy=False):
                 row(k)
                 k -= 1
         else:
-            v1, s1 = _lerp(xs[i], xs[i + 1], table.f1[i], table.f1[i + 1], E)
-            v2, s2 = _lerp(xs[i], xs[i + 1], table.f2[i], table.f2[i + 1], E)
-            add(v1, s1, v2, s2)
+            x0, x1 = xs[i], xs[i + 1]
+            t = (E - x0) / (x1 - x0)
+            v, sc = [], []
+            for c in cols:
+                y0, y1 = c[i], c[i + 1]
+                if y0 != y0 or y1 != y1:
+                    v.append(NAN)
+                    sc.append(0.0)
+                else:
+                    v.append(y0 + t * (y1 - y0))
+                    sc.append(abs(y0) + abs(y1) + _slope_allowance(xs, c, i, E))
+            out.append((tuple(v), tuple(sc)))
     if fuzzy:
         for k in range(max(i - 2, 0), min(i + 3, n)):
             if abs(xs[k] - E) <= FUZZ * xs[k]:
@@ -351,17 +375,19 @@ def energy_of_wavelength(wl, consts):
 
 
 def sld_reference(terms, mass, density, consts):
-    """terms = [(count, f1, f2)]; mass in u (= g/mol), density in g/cm^3.
-    N [1/cm^3] = rho_m / m * N_A;  1/cm^3 = 1e-24 / Ang^3;  r_e [m] = 1e10 Ang;  result in units of
-    1e-6 / Ang^2 (x 1e6)  ->  overall 1e-8.  Returns (rho, irho, scale_rho, scale_irho) where the
-    scales are the same expression over the magnitudes of the terms."""
+    """terms = [(count, f1, f2)] or [(count, f1, f2, scale1, scale2)]; mass in u (= g/mol), density
+    in g/cm^3.  N [1/cm^3] = rho_m / m * N_A;  1/cm^3 = 1e-24 / Ang^3;  r_e [m] = 1e10 Ang;  result
+    in units of 1e-6 / Ang^2 (x 1e6)  ->  overall 1e-8.  Returns (rho, irho, scale_rho, scale_irho)
+    where the scales are the same expression over the magnitudes (scales) of the terms."""
     pre = consts.electron_radius * consts.avogadro_number * density / mass * 1e-8
     s1 = s2 = a1 = a2 = 0.0
-    for c, f1, f2 in terms:
+    for term in terms:
+        c, f1, f2 = term[:3]
+        m1, m2 = (term[3], term[4]) if len(term) == 5 else (abs(f1) if f1 == f1 else 0.0, abs(f2) if f2 == f2 else 0.0)
         s1 += c * f1
         s2 += c * f2
-        a1 += abs(c * f1) if f1 == f1 else 0.0
-        a2 += abs(c * f2) if f2 == f2 else 0.0
+        a1 += abs(c) * m1
+        a2 += abs(c) * m2
     return pre * s1, pre * s2, abs(pre) * a1, abs(pre) * a2
 
 
